@@ -230,3 +230,183 @@ Proof.
   destruct (visit_keys av hs (is_lending (JLend None)) eids ms keys e) as [a2 r2]. cbn [snd] in *.
   intros X Y. inversion X; inversion Y; subst. congruence.
 Qed.
+
+(* --- the parallel join (C07): same keys, same items as the sequential one, whatever the pool --- *)
+
+Lemma par_no_taken n m : m_supported (JPar n) m = true -> m_taken m = None.
+Proof. induction m; cbn [m_supported m_taken]; try reflexivity; [assumption | discriminate]. Qed.
+
+Lemma consume_cs_par n ms : forall e, forallb (m_supported (JPar n)) ms = true -> consume_cs ms e = e.
+Proof.
+  induction ms as [|m r IH]; intros e H; cbn [consume_cs]; [reflexivity|].
+  cbn [forallb] in H. apply andb_true_iff in H. destruct H as [H1 H2].
+  rewrite (par_no_taken n m H1). apply IH. assumption.
+Qed.
+
+Theorem par_join_is_seq_join e av eids hs n ms :
+  join_ok e (JPar n) ms = true -> join_ok e (JSeq None) ms = true ->
+  env_join e av eids hs (JPar n) ms = env_join e av eids hs (JSeq None) ms.
+Proof.
+  intros H1 H2. unfold env_join. rewrite H1, H2. cbn [negb is_lending].
+  destruct (jkeys e eids ms) as [keys|]; [|reflexivity].
+  destruct (visit_keys av hs false eids ms keys e) as [e1 r].
+  rewrite (consume_cs_par n ms e1); [reflexivity|].
+  unfold join_ok in H1. repeat (apply andb_true_iff in H1; destruct H1 as [H1 ?]). assumption.
+Qed.
+
+Theorem par_join_pool_irrelevant e av eids hs n n' ms :
+  env_join e av eids hs (JPar n) ms = env_join e av eids hs (JPar n') ms.
+Proof.
+  unfold env_join.
+  assert (forall m, m_supported (JPar n) m = m_supported (JPar n') m) as Hm.
+  { induction m; cbn [m_supported]; try reflexivity. assumption. }
+  assert (forallb (m_supported (JPar n)) ms = forallb (m_supported (JPar n')) ms) as Hf.
+  { induction ms as [|m r IH]; cbn [forallb]; [reflexivity|]. rewrite IH, Hm. reflexivity. }
+  assert (join_ok e (JPar n) ms = join_ok e (JPar n') ms) as ->; [|reflexivity].
+  unfold join_ok. rewrite Hf. reflexivity.
+Qed.
+
+Theorem par_join_each_index_once e av eids hs n ms l e' :
+  env_join e av eids hs (JPar n) ms = (e', JItems l) ->
+  NoDup (map fst l) /\ (forall i, In i (map fst l) <-> all_have e eids ms i = true).
+Proof.
+  unfold env_join. destruct (join_ok e (JPar n) ms); cbn [negb]; [|discriminate].
+  destruct (jkeys e eids ms) as [keys|] eqn:Ek; [|discriminate].
+  pose proof (visit_keys_indices av hs (is_lending (JPar n)) eids ms keys e) as Hi.
+  destruct (visit_keys av hs _ eids ms keys e) as [e1 r]. cbn [snd] in *. intros H. inversion H; subst.
+  split; [eapply jkeys_once; eassumption | intros i; eapply jkeys_exact; eassumption].
+Qed.
+
+(* --- a change set joined by value is consumed (C16) --- *)
+
+Lemma cs_get_put e k m k' : cs_get (cs_put e k m) k' = if N.eq_dec k k' then m else cs_get e k'.
+Proof. unfold cs_get, cs_put. cbn [se_cs]. rewrite find_add. destruct (N.eq_dec k k'); reflexivity. Qed.
+
+Lemma consume_cs_other ms k : forall e, (forall m, In m ms -> m_taken m <> Some k) -> cs_get (consume_cs ms e) k = cs_get e k.
+Proof.
+  induction ms as [|m r IH]; intros e H; cbn [consume_cs]; [reflexivity|].
+  rewrite IH by (intros m' Hm; apply H; right; assumption).
+  destruct (m_taken m) as [k'|] eqn:E; [|reflexivity]. rewrite cs_get_put.
+  destruct (N.eq_dec k' k); [|reflexivity]. subst. exfalso. apply (H m); [left; reflexivity | assumption].
+Qed.
+
+Lemma classic_taken r k : (exists m, In m r /\ m_taken m = Some k) \/ (forall m, In m r -> m_taken m <> Some k).
+Proof.
+  induction r as [|m r IH]; [right; intros m []|].
+  destruct IH as [[m0 [H1 H2]]|IH]; [left; exists m0; split; [right|]; assumption|].
+  destruct (m_taken m) as [k'|] eqn:E.
+  - destruct (N.eq_dec k' k) as [->|Hne].
+    + left. exists m. split; [left; reflexivity | assumption].
+    + right. intros m' [<-|Hm]; [congruence | apply IH; assumption].
+  - right. intros m' [<-|Hm]; [congruence | apply IH; assumption].
+Qed.
+
+Theorem consume_cs_empties ms k : forall e, (exists m, In m ms /\ m_taken m = Some k) ->
+  cs_get (consume_cs ms e) k = NM.empty Z.
+Proof.
+  induction ms as [|m r IH]; intros e [m0 [Hin Ht]]; [destruct Hin|]. cbn [consume_cs].
+  destruct (classic_taken r k) as [Hr|Hr].
+  - apply IH. exact Hr.
+  - rewrite consume_cs_other by exact Hr.
+    destruct Hin as [->|Hin]; [|exfalso; apply (Hr m0 Hin Ht)]. rewrite Ht, cs_get_put.
+    destruct (N.eq_dec k k); [reflexivity|congruence].
+Qed.
+
+(* --- restricted storages (C13): the item reads its own index; looking up another entity follows
+       the storage's own rule (mask and aliveness); nothing of this changes membership --- *)
+From SV Require Import Store.Masked Store.StoreInv.
+
+Lemma w_access_mut_mask ms i touch u c : ms_mask (fst (fst (w_access_mut ms i touch u c))) = ms_mask ms.
+Proof.
+  unfold w_access_mut.
+  set (ms1 := match ms_wrap ms with
+              | WFlagged => ms_event ms (EModified i)
+              | WDeref => if touch || match u with UNone => false | _ => true end then ms_event ms (EModified i) else ms
+              | WPlain => ms end).
+  assert (ms_mask ms1 = ms_mask ms) as E.
+  { subst ms1. destruct (ms_wrap ms); [reflexivity | apply ms_event_fields |].
+    destruct (touch || _); [apply ms_event_fields | reflexivity]. }
+  destruct (u_get (ms_raw ms1) i c) as [old c1]. destruct u as [|v|z].
+  - exact E.
+  - destruct (u_write (ms_raw ms1) i v c1) as [r c2]. cbn [fst ms_set ms_mask]. exact E.
+  - destruct (u_write (ms_raw ms1) i _ c1) as [r c2]. cbn [fst ms_set ms_mask]. exact E.
+Qed.
+
+Lemma env_mask_put e sid ms c s' : env_mask (env_put e sid ms c) s' = if N.eq_dec sid s' then ms_mask ms else env_mask e s'.
+Proof. unfold env_mask, env_put. cbn [se_stores]. rewrite find_add. destruct (N.eq_dec sid s'); reflexivity. Qed.
+
+(* reading and fetching mutably never change any mask *)
+Lemma env_jact_mask_keep e sid a s' : (match a with JRemove _ => False | _ => True end) ->
+  env_mask (fst (env_jact e sid a)) s' = env_mask e s'.
+Proof.
+  intros Ha. unfold env_jact. destruct (NM.find sid (se_stores e)) as [ms|] eqn:Ef; [|reflexivity].
+  assert (env_mask e sid = ms_mask ms) as Em by (unfold env_mask; rewrite Ef; reflexivity).
+  destruct a as [i|i touch d|i]; cbn [ms_jact]; try contradiction.
+  - destruct (NS.mem i (ms_mask ms)).
+    + destruct (u_get (ms_raw ms) i (se_cx e)) as [t c']. cbn [fst]. rewrite env_mask_put.
+      destruct (N.eq_dec sid s'); [subst; auto | reflexivity].
+    + cbn [fst]. rewrite env_mask_put. destruct (N.eq_dec sid s'); [subst; auto | reflexivity].
+  - destruct (NS.mem i (ms_mask ms)).
+    + destruct (u_get (ms_raw ms) i (se_cx e)) as [old c0].
+      pose proof (w_access_mut_mask ms i touch (match d with Some z => USetVal (snd old + z) | None => UNone end) c0) as X.
+      destruct (w_access_mut ms i touch _ c0) as [[ms' t] c']. cbn [fst] in *. rewrite env_mask_put.
+      destruct (N.eq_dec sid s'); [subst; congruence | reflexivity].
+    + cbn [fst]. rewrite env_mask_put. destruct (N.eq_dec sid s'); [subst; auto | reflexivity].
+Qed.
+
+Definition other_present (e : senv) (av : aview) (hs : pvec entity) (sid : N) (h : href) : bool :=
+  match pv_get hs (N.of_nat h) with
+  | Some ent => NS.mem (fst ent) (env_mask e sid) && av_alive av ent
+  | None => false
+  end.
+
+Definition is_some {A} (o : option A) : bool := match o with Some _ => true | None => false end.
+
+(* get_other / get_other_mut answer exactly for entities that are alive and have the component *)
+Theorem others_lookup_spec av hs sid mutably l : forall e,
+  map is_some (snd (others_lookup av hs sid mutably l e)) = map (other_present e av hs sid) l /\
+  (forall s', env_mask (fst (others_lookup av hs sid mutably l e)) s' = env_mask e s').
+Proof.
+  induction l as [|h l IH]; intros e; cbn [others_lookup]; [cbn; auto|].
+  unfold other_present at 1. cbn [map]. destruct (pv_get hs (N.of_nat h)) as [ent|] eqn:Eh.
+  - destruct (NS.mem (fst ent) (env_mask e sid) && av_alive av ent) eqn:Ep.
+    + pose proof (env_jact_mask_keep e sid (if mutably then JAccess (fst ent) false None else JRead (fst ent))) as Hk.
+      destruct (env_jact e sid _) as [e1 t]. cbn [fst] in Hk.
+      assert (forall s', env_mask e1 s' = env_mask e s') as Hm by (intros s'; apply Hk; destruct mutably; exact I).
+      destruct (IH e1) as [I1 I2]. destruct (others_lookup av hs sid mutably l e1) as [e2 r]. cbn [fst snd map is_some] in *.
+      split; [|intros s'; rewrite I2; apply Hm]. f_equal. rewrite I1. apply map_ext. intros h'.
+      unfold other_present. rewrite Hm. reflexivity.
+    + destruct (IH e) as [I1 I2]. destruct (others_lookup av hs sid mutably l e) as [e2 r]. cbn [fst snd map is_some] in *.
+      split; [f_equal; assumption | assumption].
+  - destruct (IH e) as [I1 I2]. destruct (others_lookup av hs sid mutably l e) as [e2 r]. cbn [fst snd map is_some] in *.
+    split; [f_equal; assumption | assumption].
+Qed.
+
+(* the restricted item: reading returns the guarded read of its own index *)
+Theorem restricted_item_reads_own av hs excl eids sid mode selmod selrem d others i e :
+  match snd (m_get av hs excl eids (MRestrict sid mode selmod selrem d others) i e) with
+  | JPaired g os => g = snd (env_jact e sid (JRead i)) /\
+                    (negb (N.eqb mode 1) || excl = false -> os = [])
+  | _ => False
+  end.
+Proof.
+  cbn [m_get]. destruct (env_jact e sid (JRead i)) as [e1 t]. cbn [snd].
+  destruct (negb (N.eqb mode 1) || excl).
+  - destruct (others_lookup av hs sid _ others _) as [e3 os]. cbn [snd]. split; [reflexivity | discriminate].
+  - cbn [snd]. auto.
+Qed.
+
+(* a restricted join changes no membership: no mask of any storage changes *)
+Lemma m_get_restricted_masks av hs excl eids sid mode selmod selrem d others i e s' :
+  env_mask (fst (m_get av hs excl eids (MRestrict sid mode selmod selrem d others) i e)) s' = env_mask e s'.
+Proof.
+  cbn [m_get]. pose proof (env_jact_mask_keep e sid (JRead i) s' I) as H1.
+  destruct (env_jact e sid (JRead i)) as [e1 t]. cbn [fst] in H1.
+  set (e2 := if N.eqb mode 1 && N.eqb (N.modulo i selmod) selrem then fst (env_jact e1 sid (JAccess i true (Some d))) else e1).
+  assert (env_mask e2 s' = env_mask e s') as H2.
+  { subst e2. destruct (N.eqb mode 1 && N.eqb (N.modulo i selmod) selrem); [|exact H1].
+    rewrite (env_jact_mask_keep e1 sid (JAccess i true (Some d)) s' I). exact H1. }
+  destruct (negb (N.eqb mode 1) || excl); [|exact H2].
+  destruct (others_lookup_spec av hs sid (N.eqb mode 1 && Z.odd d) others e2) as [_ H3].
+  destruct (others_lookup av hs sid _ others e2) as [e3 os]. cbn [fst] in *. rewrite H3. exact H2.
+Qed.
